@@ -551,6 +551,14 @@ def _private_marker_sites(f: Func) -> List[str]:
                 out.append(f'if {norm(n.test)[:40]}')
         if isinstance(n, ast.Attribute) and n.attr == 'name' and isinstance(n.value, ast.Attribute) and n.value.attr == 'privacyClass':
             out.append(f'{norm(n)[:40]} emitted')
+        # the same through the System method the property delegates to: system.privacyClass(o).name, also via a hoisted bound method
+        if isinstance(n, ast.Attribute) and n.attr == 'name' and isinstance(n.value, ast.Call):
+            fn = n.value.func
+            direct = isinstance(fn, ast.Attribute) and fn.attr == 'privacyClass'
+            hoisted = isinstance(fn, ast.Name) and any(isinstance(a, ast.Assign) and isinstance(a.value, ast.Attribute) and a.value.attr == 'privacyClass' and
+                                                       any(isinstance(t, ast.Name) and t.id == fn.id for t in a.targets) for a in f.walk())
+            if direct or hoisted:
+                out.append(f'{norm(n)[:40]} emitted')
     return out
 
 
